@@ -485,6 +485,76 @@ func c05R3(p *core.Prog, r *core.Report) {
 		}
 		r.Check(ok, rule, fname, "no fall-back after a failed rewind", p.Pos(seek.Pos()), "when the source cannot be rewound to offset 0 the chunked upload (which would send a stream missing its beginning) is unreachable")
 	}
+	// (e) the fall-back is taken whenever the source can be rewound: from the failure edge of the single
+	// PUT, a return is reachable without the chunked upload only over a branch that concerns nothing but
+	// whether the source can be rewound (not seekable, seek failed, not at offset 0) or a cancelled context
+	{
+		var rewindOnly func(v ssa.Value, d int) bool
+		rewindOnly = func(v ssa.Value, d int) bool {
+			if d > 8 {
+				return false
+			}
+			switch x := v.(type) {
+			case *ssa.Const:
+				return true
+			case *ssa.UnOp:
+				return x.Op == token.NOT && rewindOnly(x.X, d+1)
+			case *ssa.BinOp:
+				return rewindOnly(x.X, d+1) && rewindOnly(x.Y, d+1)
+			case *ssa.Extract:
+				return rewindOnly(x.Tuple, d+1)
+			case *ssa.Phi:
+				for _, e := range x.Edges {
+					if !rewindOnly(e, d+1) {
+						return false
+					}
+				}
+				return true
+			case *ssa.TypeAssert:
+				if it, ok := x.AssertedType.Underlying().(*types.Interface); ok {
+					for i := 0; i < it.NumMethods(); i++ {
+						if it.Method(i).Name() == "Seek" {
+							return true
+						}
+					}
+				}
+				return false
+			case *ssa.Call:
+				if isInvoke(x, "Seek") || isInvoke(x, "Err") && core.IsNamed(x.Call.Value.Type(), "context", "Context") {
+					return true
+				}
+				if g := core.CalleeFn(x); g != nil && g != fn && core.Helpers(fn, 1)[g] {
+					rew := false
+					core.Calls(g, func(c ssa.CallInstruction) { rew = rew || isInvoke(c, "Seek") })
+					return rew
+				}
+			}
+			return false
+		}
+		reachesChunked := func(b *ssa.BasicBlock) bool {
+			if b == chunked.Block() {
+				return true
+			}
+			return (core.Reach{}).FromInstr(b.Instrs[0])[chunked] || b.Instrs[0] == ssa.Instruction(chunked)
+		}
+		skip := ""
+		for _, e := range errEdgesOf(fn, full) {
+			reach := core.Reach{
+				Stop: func(in ssa.Instruction) bool { return in == ssa.Instruction(chunked) },
+				StopEdge: func(from, to *ssa.BasicBlock) bool {
+					ifi, ok := core.LastInstr(from).(*ssa.If)
+					return ok && rewindOnly(ifi.Cond, 0) && !reachesChunked(to)
+				},
+			}
+			for in := range reach.FromEdge(e[0], e[1]) {
+				if ret, isRet := in.(*ssa.Return); isRet {
+					skip = p.Pos(ret.Pos())
+				}
+			}
+		}
+		r.Check(skip == "" && len(errEdgesOf(fn, full)) > 0, rule, fname, "fall-back taken whenever the source rewinds", p.Pos(full.Pos()),
+			"after a failed single PUT the return at "+skip+" is reachable without the chunked upload over a branch that is not about rewinding the source: a destination that forces the fall-back (for instance by refusing the single request) makes the upload fail although a chunked transfer would succeed")
+	}
 	// (c) failures cancel
 	for _, step := range []*ssa.Call{full, chunked} {
 		step := step
